@@ -193,6 +193,27 @@ func malformed(u *runner.U) {
 		}
 		feed(fmt.Sprintf("bad-marker-at-%d", pos), m, 65536, want)
 	}
+	// an oversized datagram must be refused by the writer, never wrapped around
+	for _, first := range []byte{0x41, 0xff, 0x00} {
+		var viol string
+		inSched(func(n *simnet.Net, s *vsched.Sched) {
+			a, b := pipe(n, simnet.StreamOpts{})
+			big := bytes.Repeat([]byte{first}, 65536)
+			_, err := apicommon.NewPacketOverStreamTunnel(a).Write(big)
+			a.Close()
+			if err == nil {
+				tr := apicommon.NewPacketOverStreamTunnel(b)
+				buf := make([]byte, 70000)
+				b.SetReadDeadline(s.Now().Add(2 * time.Second))
+				m, rerr := tr.Read(buf)
+				viol = fmt.Sprintf("Write of a 65536-byte datagram (first byte %#x) reported success; the reader then got (%d bytes, err=%v)", first, m, rerr)
+			}
+		})
+		u.Eval(1)
+		if viol != "" {
+			u.Violation("C18/oversized-accepted", viol, "", "65536")
+		}
+	}
 	feed("length-above-buffer", append(good(bytes.Repeat([]byte{7}, 300)), d1...), 100, 0)
 	feed("length-equals-buffer", good(bytes.Repeat([]byte{7}, 100)), 100, 1)
 }
@@ -373,6 +394,113 @@ func relay(u *runner.U, datagramMode bool) {
 	}
 }
 
+// relayBurst sends datagrams to two destinations back to back and only then collects the
+// replies: each reply must carry the address of the host that sent it.
+func relayBurst(u *runner.U, datagramMode bool) {
+	orders := [][]int{{0, 1}, {1, 0}, {0, 1, 0}, {0, 0, 1}, {1, 0, 1, 0}}
+	for oi, order := range orders {
+		for _, atyp0 := range []int{1, 3} {
+			var viol string
+			name := fmt.Sprintf("relay-burst datagram-mode=%v order=%v first-header-kind=%d", datagramMode, order, atyp0)
+			inSched(func(n *simnet.Net, s *vsched.Sched) {
+				echos := []*echo{{ip: net.IPv4(93, 184, 216, 40), port: 53}, {ip: net.ParseIP("2001:db8::40"), port: 5353}}
+				for ei, e := range echos {
+					e, ei := e, ei
+					ep := n.NewEndpoint(e.ip, e.port)
+					vsched.GoNamed("echo", "app", func() {
+						buf := make([]byte, 65536)
+						for {
+							m, from, err := ep.ReadFrom(buf)
+							if err != nil {
+								return
+							}
+							p := append([]byte(nil), buf[:m]...)
+							// reply late, so that several uploads pass through the relay before any reply
+							vsched.GoNamed("echo-reply", "app", func() {
+								vsched.Sleep(time.Duration(40+10*ei) * time.Millisecond)
+								ep.WriteTo(append([]byte{byte('A' + ei), ':'}, p...), from)
+							})
+						}
+					})
+				}
+				a, b := pipe(n, simnet.StreamOpts{})
+				udp, _ := vnet.ListenUDP("udp", nil)
+				res := resolverOf(map[string]net.IP{"echo.example": echos[0].ip})
+				var send func(p []byte)
+				var recv func() ([]byte, error)
+				if !datagramMode {
+					vsched.GoNamed("loop", "server", func() { socks5.RunUDPAssociateLoop(udp, apicommon.NewPacketOverStreamTunnel(b), res) })
+					t := apicommon.NewPacketOverStreamTunnel(a)
+					send = func(p []byte) { t.Write(p) }
+					recv = func() ([]byte, error) {
+						buf := make([]byte, 65536)
+						a.SetReadDeadline(s.Now().Add(5 * time.Second))
+						m, err := t.Read(buf)
+						return buf[:m], err
+					}
+				} else {
+					vsched.GoNamed("loop", "server", func() { socks5.VerifRunUDPAssociateDatagramLoop(udp, b, res) })
+					cl := n.NewEndpoint(net.IPv4(203, 0, 113, 5), 4444)
+					to := udp.LocalAddr()
+					send = func(p []byte) { cl.WriteTo(p, to) }
+					recv = func() ([]byte, error) {
+						buf := make([]byte, 65536)
+						cl.SetReadDeadline(s.Now().Add(5 * time.Second))
+						m, _, err := cl.ReadFrom(buf)
+						return buf[:m], err
+					}
+				}
+				for i, d := range order {
+					e := echos[d]
+					h := header(map[bool]int{true: 1, false: 4}[e.ip.To4() != nil], e.ip, "", e.port)
+					if d == 0 && atyp0 == 3 {
+						h = header(3, nil, "echo.example", e.port)
+					}
+					send(append(append([]byte(nil), h...), fmt.Sprintf("msg-%d-to-%d", i, d)...))
+					vsched.Sleep(time.Millisecond)
+				}
+				for range order {
+					reply, err := recv()
+					if err != nil {
+						viol = fmt.Sprintf("a reply is missing: %v", err)
+						return
+					}
+					// who sent it? the echo puts its letter in front of the payload
+					who := -1
+					for ei := range echos {
+						if bytes.Contains(reply, []byte{byte('A' + ei), ':', 'm', 's', 'g'}) {
+							who = ei
+						}
+					}
+					if who < 0 {
+						viol = fmt.Sprintf("unparseable reply % x", head(reply, 40))
+						return
+					}
+					e := echos[who]
+					ipHdr := header(map[bool]int{true: 1, false: 4}[e.ip.To4() != nil], e.ip, "", e.port)
+					nameHdr := header(3, nil, "echo.example", e.port)
+					ok := bytes.HasPrefix(reply, ipHdr) && bytes.HasPrefix(reply[len(ipHdr):], []byte{byte('A' + who), ':'})
+					if who == 0 && atyp0 == 3 && !datagramMode {
+						ok = ok || (bytes.HasPrefix(reply, nameHdr) && bytes.HasPrefix(reply[len(nameHdr):], []byte{'A', ':'}))
+					}
+					if !ok {
+						viol = fmt.Sprintf("a reply sent by %v:%d arrived with the header % x (it does not name the replying host, or the payload does not start right after it)", e.ip, e.port, head(reply, 24))
+						return
+					}
+				}
+				a.Close()
+				udp.Close()
+			})
+			_ = oi
+			u.Eval(1)
+			u.Distinct(name)
+			if viol != "" {
+				u.Violation("C18/relay-addressing", viol, name, name)
+			}
+		}
+	}
+}
+
 func head(b []byte, n int) []byte {
 	if len(b) > n {
 		return b[:n]
@@ -495,10 +623,12 @@ func units(tier string) []runner.Unit {
 	}})
 	us = append(us, runner.Unit{Name: "relay-packet-over-stream", Cost: 2, Run: func(u *runner.U) {
 		relay(u, false)
+		relayBurst(u, false)
 		u.Sample("RunUDPAssociateLoop: sequences of datagrams with IPv4 / IPv6 / domain headers to two echo destinations, sizes {0,1,2,255,256,1400,9000}")
 	}})
 	us = append(us, runner.Unit{Name: "relay-datagram", Cost: 2, Run: func(u *runner.U) {
 		relay(u, true)
+		relayBurst(u, true)
 		u.Sample("runUDPAssociateDatagramLoop: same sequences over a UDP client socket")
 	}})
 	us = append(us, runner.Unit{Name: "bidi-copy-udp", Cost: 2, Run: func(u *runner.U) {
